@@ -61,6 +61,10 @@ struct World {
   std::set<std::string> swapPids;
   std::function<void()> swapFn;
   bool swapped{false};
+  // stale stream: these cgroups empty on their own (all their processes exit) between the tick's sample and the kill: at the
+  // first kill-accounting xattr aimed at one of them its cgroup.procs / cgroup.events / pids.current are rewritten
+  std::set<int> emptyAtAttempt;
+  std::set<int> emptied;
 };
 
 inline World g_w;
@@ -227,6 +231,21 @@ int setxattr(const char* path, const char* name, const void* value, size_t size,
   Json::Value e;
   e["ev"] = "setxattr";
   e["cg"] = cgOfPath(path);
+  {
+    int cg = e["cg"].asInt();
+    if (g_w.emptyAtAttempt.count(cg) && !g_w.emptied.count(cg)) {
+      g_w.emptied.insert(cg);
+      g_w.procs[cg].clear();
+      writeProcs(cg);
+      bool r = g_rec;
+      g_rec = false;
+      std::string d = g_w.root + "/" + g_w.id2path[cg];
+      struct stat st;
+      if (::stat((d + "/cgroup.events").c_str(), &st) == 0) vh::writeFile(d + "/cgroup.events", "populated 0\nfrozen 0\n");
+      if (::stat((d + "/pids.current").c_str(), &st) == 0) vh::writeFile(d + "/pids.current", "0\n");
+      g_rec = r;
+    }
+  }
   e["name"] = name;
   e["val"] = std::string((const char*)value, size);
   char buf[4096];
@@ -341,6 +360,16 @@ ssize_t write(int fd, const void* buf, size_t count) {
     e["cg"] = it->second.cg;
     e["file"] = it->second.file;
     e["data"] = std::string((const char*)buf, count);
+    if (it->second.file == "cgroup.kill" && g_w.emptied.count(it->second.cg)) {
+      // (only for the cgroups the stale stream emptied: elsewhere the generator's trees may pair `populated 1` with an empty
+      // cgroup.procs, which no kernel does, and the answer of cgroup.events is what counts)  cgroup.kill reaches the whole subtree
+      size_t n = 0;
+      auto me = g_w.id2path.find(it->second.cg);
+      if (me != g_w.id2path.end())
+        for (auto& kv : g_w.id2path)
+          if (kv.second == me->second || kv.second.compare(0, me->second.size() + 1, me->second + "/") == 0) n += g_w.procs[kv.first].size();
+      e["nprocs"] = (Json::UInt64)n;
+    }
     bool fail = false;
     for (auto& f : g_w.wfail)
       if (f == it->second.file) fail = true;
